@@ -481,8 +481,10 @@ func FieldStores(fns []*ssa.Function, ownerPat, field string) []*ssa.Store {
 // which removes the classic path-insensitive false alarm
 //     modified = true; ...; if modified { return }; X
 
-// Env maps phis to the constant they are known to hold on the current path.
-type Env map[*ssa.Phi]*ssa.Const
+// Env maps phis to the value they are known to hold on the current path: a
+// constant, or any non-phi value (so that "the error that is returned on this
+// path" can be told apart from an error overwritten in a later loop iteration).
+type Env map[*ssa.Phi]ssa.Value
 
 func (e Env) key() string {
 	if len(e) == 0 {
@@ -490,7 +492,7 @@ func (e Env) key() string {
 	}
 	var ks []string
 	for p, c := range e {
-		ks = append(ks, p.Name()+"="+constText(c))
+		ks = append(ks, p.Name()+"="+c.Name())
 	}
 	sort.Strings(ks)
 	return strings.Join(ks, ",")
@@ -504,15 +506,27 @@ func (e Env) clone() Env {
 	return n
 }
 
+// Resolve follows v through phis bound in env.
+func Resolve(v ssa.Value, env Env) ssa.Value {
+	for i := 0; i < 8; i++ {
+		ph, ok := v.(*ssa.Phi)
+		if !ok {
+			return v
+		}
+		b, ok := env[ph]
+		if !ok {
+			return v
+		}
+		v = b
+	}
+	return v
+}
+
 // ResolveConst resolves v to a constant under env (through phis known in env and boolean negation).
 func ResolveConst(v ssa.Value, env Env) (string, bool) {
-	switch x := v.(type) {
+	switch x := Resolve(v, env).(type) {
 	case *ssa.Const:
 		return constText(x), true
-	case *ssa.Phi:
-		if c, ok := env[x]; ok {
-			return constText(c), true
-		}
 	case *ssa.UnOp:
 		if x.Op == token.NOT {
 			if s, ok := ResolveConst(x.X, env); ok {
@@ -529,16 +543,29 @@ func ResolveConst(v ssa.Value, env Env) (string, bool) {
 }
 
 // Reached describes a target instruction reached by WalkCP together with the
-// constants known on that path.
+// phi bindings known on that path.
 type Reached struct {
 	Instr ssa.Instruction
 	Env   Env
+}
+
+// WalkOpts extends ReachOpts with env-aware cuts.
+type WalkOpts struct {
+	ReachOpts
+	CutInstrEnv func(ssa.Instruction, Env) bool
+	MaxStates   int
+	Exceeded    *bool
 }
 
 // WalkCP explores all paths from `from`, folding branches on phis whose value on
 // the path is a known constant, stopping at cuts, and reports every target hit
 // (deduplicated per (instruction, env)). Paths do not continue past a target.
 func WalkCP(from Point, initEnv Env, target func(ssa.Instruction) bool, o ReachOpts) []Reached {
+	return WalkEnv(from, initEnv, target, WalkOpts{ReachOpts: o})
+}
+
+// WalkEnv is WalkCP with env-aware instruction cuts.
+func WalkEnv(from Point, initEnv Env, target func(ssa.Instruction) bool, o WalkOpts) []Reached {
 	type state struct {
 		b   *ssa.BasicBlock
 		idx int
@@ -550,8 +577,18 @@ func WalkCP(from Point, initEnv Env, target func(ssa.Instruction) bool, o ReachO
 	if initEnv == nil {
 		initEnv = Env{}
 	}
+	max := o.MaxStates
+	if max == 0 {
+		max = 200000
+	}
 	work := []state{{from.Block, from.Idx, initEnv}}
 	for len(work) > 0 {
+		if len(seen) > max {
+			if o.Exceeded != nil {
+				*o.Exceeded = true
+			}
+			return out
+		}
 		st := work[len(work)-1]
 		work = work[:len(work)-1]
 		stopped := false
@@ -566,7 +603,7 @@ func WalkCP(from Point, initEnv Env, target func(ssa.Instruction) bool, o ReachO
 				stopped = true
 				break
 			}
-			if o.CutInstr != nil && o.CutInstr(in) {
+			if (o.CutInstr != nil && o.CutInstr(in)) || (o.CutInstrEnv != nil && o.CutInstrEnv(in, st.env)) {
 				stopped = true
 				break
 			}
@@ -595,9 +632,8 @@ func WalkCP(from Point, initEnv Env, target func(ssa.Instruction) bool, o ReachO
 				continue
 			}
 			succ := st.b.Succs[k]
-			// which predecessor index are we?
 			env := st.env.clone()
-			newVals := map[*ssa.Phi]*ssa.Const{}
+			newVals := map[*ssa.Phi]ssa.Value{}
 			var phis []*ssa.Phi
 			for _, in := range succ.Instrs {
 				ph, ok := in.(*ssa.Phi)
@@ -609,14 +645,13 @@ func WalkCP(from Point, initEnv Env, target func(ssa.Instruction) bool, o ReachO
 					if pred != st.b {
 						continue
 					}
-					// if the same pred occurs twice (both branches to same block) edges are identical
 					switch e := ph.Edges[pi].(type) {
-					case *ssa.Const:
-						newVals[ph] = e
 					case *ssa.Phi:
 						if c, ok := st.env[e]; ok {
 							newVals[ph] = c
 						}
+					default:
+						newVals[ph] = e
 					}
 					break
 				}
